@@ -351,6 +351,14 @@ impl Srv {
                 if op.get("tokens").and_then(|v| v.as_bool()).unwrap_or(false) {
                     needles.extend(self.tokens.values().cloned());
                 }
+                // payload needles: [id, len] pairs -> the deterministic payload bytes of that message
+                let mut byte_needles: Vec<(String, Vec<u8>)> = needles.iter().map(|n| (n.clone(), n.as_bytes().to_vec())).collect();
+                if let Some(ps) = op.get("payloads").and_then(|v| v.as_array()) {
+                    for p in ps {
+                        let (id, len) = (p[0].as_u64().unwrap(), p[1].as_u64().unwrap() as usize);
+                        byte_needles.push((format!("payload:{id}:{len}"), payload_for(id, len)));
+                    }
+                }
                 let mut hits = vec![];
                 let mut files = 0u64;
                 let mut bytes = 0u64;
@@ -368,9 +376,8 @@ impl Srv {
                     if let Ok(data) = std::fs::read(&f) {
                         files += 1;
                         bytes += data.len() as u64;
-                        for n in &needles {
-                            let nb = n.as_bytes();
-                            if !nb.is_empty() && data.windows(nb.len()).any(|w| w == nb) {
+                        for (n, nb) in &byte_needles {
+                            if !nb.is_empty() && data.windows(nb.len()).any(|w| w == nb.as_slice()) {
                                 hits.push(json!([n, f.strip_prefix(&self.dir).unwrap().to_string_lossy()]));
                             }
                         }
